@@ -45,15 +45,17 @@ class AForest(object):
             out.extend(b)
         return sorted(out)
 
-    def postorder(self):
+    def postorder(self, reverse_siblings=False):
         order = []
 
         def rec(i):
-            for c in self.children(i):
+            ch = self.children(i)
+            for c in (ch[::-1] if reverse_siblings else ch):
                 rec(c)
             order.append(i)
 
-        for t in self.tops():
+        tops = self.tops()
+        for t in (tops[::-1] if reverse_siblings else tops):
             rec(t)
         return order
 
